@@ -36,6 +36,16 @@ class PairEnv:
         self.primeF = Function(P + '.primeF', I, I)
         self.doubleF = Function(P + '.doubleF', I, I)
 
+    def dual(self, prefix):
+        """The environment of the closures of the *other* Vectors object of the same Relation: self/other exchanged,
+        sharing the two sequences and the acc spec functions (accS of one is accO of the other)."""
+        D = PairEnv(prefix)
+        D.len_self, D.len_other = self.len_other, self.len_self
+        D.self_at, D.other_at = self.other_at, self.self_at
+        D.Prime, D.Double = self.Double, self.Prime
+        D.accO, D.wO, D.accS, D.wS = self.accS, self.wS, self.accO, self.wO
+        return D
+
     # ---- the assumptions PairEnv stands for (established by Relation.__new__, see contracts/lib.py)
     def facts(self):
         k, i, j, b = Ints('k i j b')
